@@ -95,9 +95,9 @@ CHECKS = {
         ref="6/C18",
     ),
     "C20": dict(
-        text="Partial. Two executions on the same symbolic random stream yield identical terms for every output and history series, and random-source provenance: every draw is served by the generator object the user supplied through the sampler constructor, through sample(rng=...) and through the real Aspire.sample_posterior keyword routing; numpy.random.default_rng and orng.ArrayRNG are instrumented: a draw served by a generator the library constructed itself is a violation.",
-        note="Loop harness bounds: N=2 (quick) / N<=3 (thorough) particles, d=1, <=2 (quick) / <=4 (thorough) iterations, schedules fixed 1/2(/4), adaptive with min_step 1/2 (and max_n_steps, unbounded in thorough; paths reaching the unrolling bound are counted as cut); user functions, proposal, generator and MCMC kernels are stubs (uninterpreted functions / symbolic streams / fake kernel modules); SMCSampler.sample is a logging-stripped copy of the current source with beta_tolerance 1/4. Flow construction/training seeds (torch.manual_seed, JAX keys) and third-party kernels are outside; known finding C20-D10.",
-        ref="6/C20",
+        text="Partial. Two executions on the same symbolic random stream yield identical terms for every output and history series, and random-source provenance: every draw is served by the generator object the user supplied through the sampler constructor, through sample(rng=...) and through the real Aspire.sample_posterior keyword routing; numpy.random.default_rng and orng.ArrayRNG are instrumented: a draw served by a generator the library constructed itself is a violation; the object that reaches the sampler is the user's generator itself, not a copy. Flow construction (ZukoFlow / BaseTorchFlow / FlowJax constructors, FlowPreconditioningTransform.fit, Aspire.init_flow) over symbolic models of torch's global generator (seed -> SEED(s), draws advance the state, arbitrary state before) and of JAX keys (uninterpreted key / split / fold_in) with process-dependent sources (salted hash(), id(), clock, python's global generator) stubbed differently in two constructions: the torch network is built from SEED(user seed) whatever ran before, and the seed / key / options reaching the network are the same terms in both constructions.",
+        note="Loop harness bounds: N=2 (quick) / N<=3 (thorough) particles, d=1, <=2 (quick) / <=4 (thorough) iterations, schedules fixed 1/2(/4), adaptive with min_step 1/2 (and max_n_steps, unbounded in thorough; paths reaching the unrolling bound are counted as cut); user functions, proposal, generator and MCMC kernels are stubs (uninterpreted functions / symbolic streams / fake kernel modules); SMCSampler.sample is a logging-stripped copy of the current source with beta_tolerance 1/4. Flow TRAINING (fit) and the third-party kernels are outside; known finding C20-D10.",
+        ref="6/C20, 12.8",
     ),
     "C13": dict(
         text="Partial (everything but flows). The real save / load code of the transforms, the sample classes, the histories and the configuration (save/load/_save_state/_load_state/config_dict, BaseSamples.save/load/_encode_for_hdf5/_decode_from_dictionary/to_dict/from_dict, SMCHistory.save/load, recursively_save_to_h5_file, load_from_h5_file, encode/decode_for_hdf5, encode/decode_dtype, encode/decode_samples, Aspire.save_config/config_dict/resume_from_file/_build_aspire_from_file) runs against a hybrid container -- a real in-memory h5py file for every concrete value, name, group, attribute and string, a side table for array payloads with symbolic cells. Transforms (CompositeTransform with every combination of periodic / logit / probit / affine parts, FlowTransform, AffineTransform; symbolic bounds lower<upper, symbolic fitted state, non-default eps, float32, parameter names in non-alphabetical order): saved settings, bounds and fitted state, and the SAME forward and inverse map (value and log-Jacobian) at symbolic points inside the bounds and, for the bounded parts, anywhere between the bounds. Sample sets (three classes, flat and nested layout, with/without optional fields): every cell of every field, parameter names, namespace, precision, temperature, evidence. SMC histories: every series in order and every stored population, also with 12 populations. Aspire: the instance rebuilt by resume_from_file has the saved settings (dims, parameters, periodic parameters, bounds for all values, bounded options, flow back-end and flow options, eps, namespace, precision).",
